@@ -208,6 +208,14 @@ Fixpoint run (fx : bool) (K : nat) (s : rb) (es : list ev) : rb :=
   | e :: es' => run fx K (step fx K s e) es'
   end.
 
+(** UpdateLUNMap gives up: PreloadLunMap returned an error (the extent query of one file failed); the copy
+    with its half-built table is dropped, the live table was never touched; what the scan sent to
+    HoleCreatorChan before stays queued *)
+Definition ulm_abort (s : rb) : rb := set_uph s UIdle.
+
+(** the steps of the preload before it reaches file [i] *)
+Definition ulm_pre_until (d : dd) (i : nat) : list ev := repeat UlmPre ((i - 1) * S (nblk d)).
+
 (** all steps of the preload at once, and the whole UpdateLUNMap without interleaving *)
 Definition ulm_pre_all (d : dd) : list ev := repeat UlmPre (nf d * S (nblk d)).
 Definition ulm_all (d : dd) : list ev := UlmBegin :: ulm_pre_all d ++ [UlmMerge].
